@@ -109,6 +109,8 @@ FIXED = [
     ('C10', '7313ebf', 'input-mutated|RadialProfile:mask', "profiles did mask |= badmask on the caller's mask"),
     ('C10', '7529072', 'input-mutated|StarFinder():data', "StarFinder zeroed negative pixels in the caller's image (cutouts are views)"),
     ('C10', '3a30b2f', 'input-mutated|StarFinder():kernel', "StarFinder divided the caller's kernel in place"),
+    ('C10', '29d58d3', 'input-mutated|extract_stars:nddata_weights',
+     "extract_stars zeroed the masked pixels in the caller's 'weights'-type uncertainty array (np.asanyarray alias)"),
     ('C15', '3a30b2f', 'repr-raises|StarFinder():int', 'StarFinder failed for an integer kernel (in-place true divide)'),
     ('C15', '2af8905', 'repr-raises|calc_total_error:int', 'calc_total_error failed for integer data (in-place true divide on an int copy)'),
     ('C15', '4bd3397', 'repr-raises|Background2D.background_mesh_masked:int', 'background_mesh_masked failed for integer data (NaN into an int mesh)'),
